@@ -1,6 +1,7 @@
 package main
 
 import (
+	"runtime/pprof"
 	"encoding/json"
 	"flag"
 	"fmt"
@@ -427,7 +428,14 @@ func main() {
 	xdir := flag.String("xdir", "", "dump every -xevery-th solver query here for cross-solver checking")
 	xevery := flag.Int("xevery", 50, "sampling stride for -xdir")
 	patterns := flag.String("patterns", "./src,./src/algo,./src/util", "package patterns")
+	debug.SetGCPercent(800)
+	cpuprof := flag.String("cpuprofile", "", "write CPU profile")
 	flag.Parse()
+	if *cpuprof != "" {
+		f, _ := os.Create(*cpuprof)
+		pprof.StartCPUProfile(f)
+		defer pprof.StopCPUProfile()
+	}
 	if os.Getenv("SYMGO_DEBUG") != "" {
 		debugSites = map[string]int{}
 	}
